@@ -182,6 +182,12 @@ theorem frobenius_Fq6 (k : ℕ) (x : Fq6) : Fq6.frobeniusMap x k = x ^ Gen.q ^ k
 theorem frobenius_Fq12 (k : ℕ) (x : Fq12) : Fq12.frobeniusMap x k = x ^ Gen.q ^ k :=
   Fq12.frobenius_spec k x
 
+/-- the same through the `FieldOps` interface used by the generic code (`Fq` included) -/
+theorem frobenius_fieldOps (k : ℕ) :
+    (∀ x : Fq, FieldOps.frob x k = x ^ Gen.q ^ k) ∧ (∀ x : Fq2, FieldOps.frob x k = x ^ Gen.q ^ k) ∧
+    (∀ x : Fq6, FieldOps.frob x k = x ^ Gen.q ^ k) ∧ (∀ x : Fq12, FieldOps.frob x k = x ^ Gen.q ^ k) :=
+  ⟨Fq.frobenius_spec k, Fq2.frobenius_spec k, Fq6.frobenius_spec k, Fq12.frobenius_spec k⟩
+
 /-- the `Fq12` conjugation (the "easy part" of the final exponentiation) is `x ↦ x^(q^6)` -/
 theorem conjugate_eq_pow (x : Fq12) : Fq12.conjugate x = x ^ Gen.q ^ 6 :=
   Fq12.conjugate_eq_pow x
